@@ -127,6 +127,12 @@ MOS += [
 ]
 
 
+MOS.append(MO("O1.5/crash_window", "create_snapshot: no WAL segment is unlinked before a MANIFEST that no longer lists it has been saved (otherwise a kill between the unlink and the pruned "
+              "MANIFEST save leaves a MANIFEST naming missing segments, which strict recovery refuses: O13.1/missing_segment)",
+              never(CS, MAN_SAVE, frm=COMPACT_WAL), functions=[("hnsw_backend.rs", "create_snapshot"), ("hnsw_backend.rs", "compact_old_wal_segments")],
+              role="unlink-before-pruned-manifest"))
+
+
 def seq_allocation(F):
     """Sequence numbers: the counter advances by exactly the number of entries logged (1 for single-entry
     writers; wal_entries.len() for batch_delete, where entries are numbered base..base+len-1)."""
